@@ -673,7 +673,17 @@ posted) exactly once and nothing is re-armed, or exactly one wait is re-armed / 
 the handler is not called — never both, never twice, never neither. -/
 theorem completion_functor_paths_complete_once :
     (∀ f ∈ Gen.functorPaths, f.2 ≠ [] ∧ ∀ p ∈ f.2, (p.1 = 1 ∧ p.2 = 0) ∨ (p.1 = 0 ∧ p.2 = 1)) ∧
-    Gen.functorPaths.length = 8 := by
+    Gen.functorPaths.length = 8 ∧
+    -- which branch is which: an error passed in completes; after the read/write, "nothing transferred and the error is
+    -- would-block" re-arms, anything else (success, data, another error) completes; the "all" loops complete when the
+    -- buffer is done or on an error other than would-block; a would-block accept restarts the accept
+    Gen.functorConds =
+      [("reader_some", ["e", "n==0&&err&&basic_io_device::would_block(err)"]),
+       ("writer_some", ["e", "n==0&&err&&basic_io_device::would_block(err)"]),
+       ("reader_all", ["e", "buf.empty()||(err&&!basic_io_device::would_block(err))"]),
+       ("writer_all", ["e", "buf.empty()||(err&&!basic_io_device::would_block(err))"]),
+       ("async_acceptor", ["e", "basic_io_device::would_block(reserr)"])] ∧
+    Gen.closeCancelsBeforeOwnerTest = true := by
   decide
 
 /-! ## exactly once, if the loop keeps running -/
